@@ -27,6 +27,25 @@ def nontrivial(s, a, rt):
     return False
 
 
+def second_providers(rng, s):
+    """mutate: a before/on action referenced by name is offered by a second provider too — both are called,
+    both results count"""
+    import copy
+    import eng
+    nid = max([c.id for c in s.cbs] + [0]) + 1
+    aliased = {c.alias_of for c in s.cbs if c.alias_of} | {c.id for c in s.cbs if c.alias_of}
+    provs = ["machine", "model"] + list(s.listeners_ctor)
+    for c in list(s.cbs):
+        if c.style == "name" and c.group in ("before", "on") and c.id not in aliased and rng.random() < 0.35:
+            others = [p for p in provs if p != c.provider and not any(x.name == c.name and x.provider == p for x in s.cbs)]
+            if others:
+                d = copy.deepcopy(c)
+                d.id, d.provider = nid, rng.choice(others)
+                nid += 1
+                s.cbs.append(d)
+                s.acts.append((d.id, 0, 10**9, rng.choice(eng.RET_TOKS), None, []))
+
+
 def chained_variants(rng, s):
     """expand: the scenario itself plus variants in which a callback of an event whose own result is
     None sends another event (the outermost call must still return None, whatever the chained event
@@ -66,7 +85,7 @@ def run(ctx):
                             "provider, return pool None/0/''/[]/[1,2]/()/{}/str/float, internal/self/multi-event "
                             "transitions, both engines; non-trivial = an executed transition had >=2 contributing "
                             "callbacks or a single one returning None/a container")
-    engine_check(ctx, PROFILE, 700, 16000, nontrivial, monitor=c14_monitor, tag="C14s")
+    engine_check(ctx, PROFILE, 700, 16000, nontrivial, monitor=c14_monitor, tag="C14s", mutate=second_providers)
     cov0 = dict(ctx.coverage)
     engine_check(ctx, PROFILE_SPARSE, 350, 8000, nontrivial, monitor=c14_monitor, tag="C14n", expand=chained_variants)
     cov1 = dict(ctx.coverage)
